@@ -75,7 +75,8 @@ def static_bank():
             h = StaticFileHandler(root, enable_directory_listing=listing)
             # 1. nothing from outside the root, whatever the spelling
             own = ["/" + rel for rel in files] + ["/" + quote(rel) for rel in files] + ["/" + "".join(f"%{b:02X}" for b in rel.encode()) .replace("%2F", "/") for rel in files]
-            for path in SPELLINGS + own:
+            abs_spelled = ["/%2F" + str(root).lstrip("/") + "/a.gmi", "/" + str(root).lstrip("/") + "/a.gmi", "/%2F%2F" + str(root).lstrip("/") + "/sub2/b.gmi"]
+            for path in SPELLINGS + own + abs_spelled:
                 req = static_request(path)
                 if req is None:
                     continue
@@ -91,6 +92,19 @@ def static_bank():
                 if leaked:
                     return dict(confirmed=True, input=inp, observed=dict(status=status, meta=meta, body=text[:80], violated=[f"content of a file outside the document root was revealed ({leaked[0]})"]),
                                 clause="[C02] a success response carries a file or listing whose resolved location is inside the root; other paths reveal nothing"), tried
+                if 20 <= status <= 29:
+                    from urllib.parse import unquote as _unq
+                    try:
+                        want = Path(os.path.realpath(root / _unq(req.path).lstrip("/")))
+                        exists = want.exists()
+                    except (OSError, ValueError):
+                        want, exists = None, False
+                    rr = Path(os.path.realpath(root))
+                    contained = want is not None and (want == rr or rr in want.parents)
+                    if not exists or not contained:
+                        return dict(confirmed=True, input=inp, observed=dict(status=status, meta=meta, body=text[:80], resolves_to=str(want),
+                                    violated=["a success response for a path that resolves to nothing or outside the document root" + (" (listing of a directory outside the root)" if "=>" in text else "")]),
+                                    clause="[C02] a path that resolves outside the root, or to nothing, yields a non-success status"), tried
                 if not 20 <= status <= 29 and any(m in text or m in meta for m in files.values()):
                     return dict(confirmed=True, input=inp, observed=dict(status=status, meta=meta, violated=["a non-success response carries file content"]), clause="[C02] non-success reveals no content"), tried
             # 2. every regular file inside the root is served by its own path, literal or percent-encoded
@@ -203,8 +217,15 @@ class Faults:
 
 
 def titan(path, content, mime="text/gemini", token=None, size=None):
-    return TitanRequest(raw_url=f"titan://h.example{path}", scheme="titan", hostname="h.example", port=1965, path=path,
-                        size=len(content) if size is None else size, mime_type=mime, token=token, content=content)
+    """a TitanRequest as the protocol builds it: from_line on the request line, then the content attached"""
+    n = len(content) if size is None else size
+    line = f"titan://h.example{path};size={n};mime={mime}" + (f";token={token}" if token is not None else "")
+    try:
+        req = TitanRequest.from_line(line)
+    except Exception:  # noqa: BLE001  (refused before any handler: C08)
+        return None
+    req.content = content
+    return req
 
 
 UPLOAD_PATHS = ["/new.gmi", "/old.gmi", "/dir/y.gmi", "/dir/inner/deep/z.gmi", "/../outside/victim.txt", "/outlink/victim.txt", "/outlink/new.txt", "/victimlink",
@@ -214,11 +235,13 @@ UPLOAD_PATHS = ["/new.gmi", "/old.gmi", "/dir/y.gmi", "/dir/inner/deep/z.gmi", "
 def upload_bank():
     tried = 0
     clause = "[C14] the only change is the one regular file the path denotes inside the upload directory, with exactly the bytes sent; a refused or failed request changes nothing"
-    for path in UPLOAD_PATHS:
+    for path in UPLOAD_PATHS + ["@ABS@/abs.gmi"]:
         for scenario in ("plain", "wrong-token", "no-token", "good-token", "too-big", "bad-mime", "delete-off", "delete-on", "fault-write-0", "fault-write-3", "fault-open", "fault-replace"):
             base = Path(tempfile.mkdtemp(prefix="pyvc_up_"))
             try:
                 up = build_upload_tree(base)
+                if path.startswith("@ABS@"):
+                    path = str(up) + path[len("@ABS@"):]       # the server-side absolute path spelled out as the URL path
                 kw, content, token, fault = {}, b"NEW-CONTENT-" + path.encode()[:8], None, None
                 if scenario in ("wrong-token", "no-token", "good-token"):
                     kw["auth_tokens"] = {"s3cret"}
@@ -240,6 +263,8 @@ def upload_bank():
                 h = FileUploadHandler(up, **kw)
                 before = snapshot(base)
                 req = titan(path, content, token=token)
+                if req is None:
+                    continue
                 tried += 1
                 try:
                     if fault:
